@@ -47,8 +47,21 @@ def gen_cases(ctx, n):
         cases.append(G.gen_case(ctx.rng, family=fam, want_range=False, noise_free=False))
     for form in G.FORMS:
         cases.append(G.gen_case(ctx.rng, form=form, want_range=False, noise_free=False, sy="none"))
+    # the same problems in other units: x and y scaled independently by 1e-6 ... 1e6 (small-unit
+    # data have covariances of 1e-13 and less; every comparison below is relative)
+    ext = [(1e-6, 1e-6), (1e-6, 1e6), (1e6, 1e-6), (1e6, 1e6), (1.0, 1e-6), (1e-3, 1e-3), (1.0, 1e6)]
+    fams = ("linear", "quadratic", "polynomial", "exponential", "gaussian", "custom:sine",
+            "custom:lorentz")
+    for k, u in enumerate(ext):
+        cases.append(G.gen_case(ctx.rng, family="linear", want_range=False, units=u))
+        cases.append(G.gen_case(ctx.rng, family=fams[k % len(fams)], want_range=False,
+                                noise_free=False, units=u))
     while len(cases) < n:
-        cases.append(G.gen_case(ctx.rng, want_range=(ctx.rng.random() < 0.1), noise_free=False))
+        u = None
+        if ctx.rng.random() < 0.6:
+            u = (ctx.rng.choice(G.SCALES), ctx.rng.choice(G.SCALES))
+        cases.append(G.gen_case(ctx.rng, want_range=(ctx.rng.random() < 0.1), noise_free=False,
+                                units=u))
     return cases
 
 
